@@ -2,6 +2,7 @@ import PyttbModel.Driver.C17
 import PyttbModel.Driver.C01
 import PyttbModel.Driver.C16
 import PyttbModel.Driver.C03
+import PyttbModel.Driver.C04
 import PyttbModel.Driver.C11
 import PyttbModel.Driver.C20
 import PyttbModel.Driver.C02
@@ -17,7 +18,7 @@ import PyttbModel.Driver.C13
 import PyttbModel.Driver.C12
 open Lean Pyttb Pyttb.Codec Pyttb.Driver
 
-def allOps : List (String × Op) := ops17 ++ ops07 ++ ops01 ++ ops16 ++ ops03 ++ ops11 ++ ops20 ++ ops02 ++ C19.ops19 ++ ops09 ++ ops14 ++ ops18 ++ ops15 ++ ops10 ++ ops08 ++ ops05 ++ ops13 ++ ops12
+def allOps : List (String × Op) := ops17 ++ ops07 ++ ops01 ++ ops16 ++ ops03 ++ C04.ops04 ++ ops11 ++ ops20 ++ ops02 ++ C19.ops19 ++ ops09 ++ ops14 ++ ops18 ++ ops15 ++ ops10 ++ ops08 ++ ops05 ++ ops13 ++ ops12
 
 def handle (line : String) : String :=
   match Json.parse line with
